@@ -90,8 +90,8 @@ func vsPendLen(s *Stream) int {
 }
 
 // one history on a fresh stream of the shared session pair
-func vsCase(w *vsWorld, rng *vrand, id int) *vpCase {
-	c := &vpCase{ID: id, Mode: "c06s", Cfg: [][2]int{}}
+func vsCase(w *vsWorld, rng *vrand, id int, mode string) *vpCase {
+	c := &vpCase{ID: id, Mode: mode, Cfg: [][2]int{}}
 	cs, err := w.client.OpenStream()
 	if err != nil {
 		c.Oracle = append(c.Oracle, "harness|OpenStream: "+err.Error())
@@ -123,6 +123,8 @@ func vsCase(w *vsWorld, rng *vrand, id int) *vpCase {
 		ss.Close()
 	}()
 	p := &vpipe{bm: w.client.bufferManager, c: c, feat: map[string]bool{"level-ii": true}, real: true, snd: cs, rcv: ss}
+	p.st = [2]*Stream{cs, ss}
+	p.dirs[1].wabs = vpDirBase
 	arrived := 0
 	p.realFlush = func() error {
 		if cs.sendBuf.Len() == 0 {
@@ -214,7 +216,11 @@ func vsCase(w *vsWorld, rng *vrand, id int) *vpCase {
 				}
 			}
 			if n >= 0 {
-				switch y := rng.intn(100); {
+				y := rng.intn(100)
+				if mode == "c08s" && y >= 50 && y < 78 {
+					y = rng.intn(50) // mostly zero-copy reads, kept while later events arrive on the connection
+				}
+				switch {
 				case y < 25:
 					op = vpOp{K: "RB", N: n}
 				case y < 50:
@@ -253,18 +259,18 @@ func vsCase(w *vsWorld, rng *vrand, id int) *vpCase {
 var vsBase int
 
 // n histories on one session pair
-func vsRun(out *vout, rng *vrand, n, firstID int) {
+func vsRun(out *vout, rng *vrand, n, firstID int, mode string) {
 	if n <= 0 {
 		return
 	}
 	debugMode = true // keeps the circuit breaker after a fallback from refusing OpenStream
 	w, err := vsNewWorld()
 	if err != nil {
-		out.emit(&vpCase{ID: firstID, Mode: "c06s", Cfg: [][2]int{}, Oracle: []string{"harness|cannot build the session pair: " + err.Error()}})
+		out.emit(&vpCase{ID: firstID, Mode: mode, Cfg: [][2]int{}, Oracle: []string{"harness|cannot build the session pair: " + err.Error()}})
 		return
 	}
 	for i := 0; i < n; i++ {
-		out.emit(vsCase(w, rng, firstID+i))
+		out.emit(vsCase(w, rng, firstID+i, mode))
 	}
 	w.client.Close()
 	w.server.Close()
